@@ -80,7 +80,7 @@ Fixpoint fixed_width (t : ty) : option nat :=
   | TInt _ w => Some w
   | TReal dbl => Some (if dbl then 8 else 4)%nat
   | TBits w => Some w
-  | TFixedStr cap _ lw => Some (lw + cap)%nat
+  | TFixedStr size _ lw _ => Some (lw + size)%nat
   | TIPAddr => Some 4%nat
   | TPcccAscii => Some 2%nat
   | TArrFixed n e => match fixed_width e with Some w => Some (n * w)%nat | None => None end
@@ -96,7 +96,7 @@ Fixpoint consumes (t : ty) : bool :=
   | TBool | TReal _ | TStringN | TStringI | TIPAddr => true
   | TInt _ w | TBits w => (0 <? w)%nat
   | TStr _ lw _ => (0 <? lw)%nat
-  | TFixedStr cap _ lw => (0 <? lw)%nat
+  | TFixedStr _ _ lw _ => (0 <? lw)%nat
   | TArrFixed n e => (0 <? n)%nat && consumes e
   | TStruct _ ms => headb (fun m => consumes (snd m)) ms
   | TStructTag ms _ _ size => (0 <? size)%nat && headb (fun m => consumes (snd m)) ms
@@ -150,7 +150,7 @@ Fixpoint wf_ty (t : ty) : bool :=
       && forallb (fun m => wf_ty (snd m)) ms
       && initb (fun m => negb (greedy (snd m))) ms
       && keys_nodup (filter (fun k => negb (unnamed k)) (map fst ms))
-  | TFixedStr cap _ lw => (0 <? cap)%nat && (0 <? lw)%nat
+  | TFixedStr size _ lw _ => (0 <? size)%nat && (0 <? lw)%nat
   | TStructTag ms bits priv size =>
       forallb (fun m => wf_ty (snd m)) ms
       && layout_ok 0 (stag_layout ms) size
@@ -219,6 +219,7 @@ Fixpoint norm (t : ty) (v : val) : val :=
   match t with
   | TReal dbl => match v with VFloat b => VFloat (real_norm dbl b) | _ => v end
   | TStringI => stringi_item_norm v
+  | TFixedStr _ _ _ cap => match v with VStr s => VStr (firstn cap s) | _ => v end
   | TArrFixed n e =>
       match v with
       | VList l => match e with TBits _ => v | _ => VList (map (norm e) (firstn n l)) end
@@ -308,8 +309,11 @@ Fixpoint in_dom (t : ty) (v : val) : bool :=
           end
       | SListIdentity => false
       end
-  | TFixedStr cap lsg lw =>
-      match v with VStr s => str_dom lsg lw Latin1 s && (length s <=? cap)%nat | _ => false end
+  | TFixedStr size lsg lw cap =>
+      match v with
+      | VStr s => str_dom lsg lw Latin1 (firstn cap s) && (length (firstn cap s) <=? size)%nat
+      | _ => false
+      end
   | TStructTag ms bits priv size =>
       match v with
       | VDict d =>
@@ -326,3 +330,112 @@ Fixpoint in_dom (t : ty) (v : val) : bool :=
                    end
   end.
 
+
+(* ------------------------------------------------------------------ the DOCUMENTED domain *)
+(* [doc_dom t v]: [t] is a type the constructors are documented to build and [v] a value its
+   documentation accepts — independently of what the code does with it.  Props/C06.v states the
+   round-trip law over [doc_dom] (C06_full) and proves it over [wf_ty]/[in_dom]; every (t, v) in
+   [doc_dom] but outside [wf_ty]/[in_dom] is a deviation of the code. *)
+Definition encodable (e : tenc) (s : text) : bool :=
+  match text_encode e s with Ok _ => true | Err _ => false end.
+Definition doc_str_dom (lsg : bool) (lw : nat) (e : tenc) (s : text) : bool :=
+  (0 <? lw)%nat && int_in_range lsg lw (zlen s) && encodable e s.
+Definition doc_named_str_dom (n : text) (s : text) : bool :=
+  match ty_of_name n with
+  | Some (TStr a b c) => doc_str_dom a b c s
+  | Some TStringN => in_urange 2 (zlen s) && encodable Utf8 s
+  | _ => false
+  end.
+Definition is_int_type (t : ty) : option (bool * nat) := match t with TInt sg w => Some (sg, w) | _ => None end.
+
+Fixpoint doc_dom (t : ty) (v : val) : bool :=
+  match t with
+  | TBool => is_vbool v
+  | TInt sg w => (0 <? w)%nat && match v with VInt z => int_in_range sg w z | _ => false end
+  | TReal dbl => match v with
+                 | VFloat b => b64_ok b && (negb (is_nan64 b) || (b =? nan64))
+                               && (if dbl then true else match round32 b with Some _ => true | None => false end)
+                 | _ => false
+                 end
+  | TDateTime => match v with
+                 | VTuple [VInt time; VInt date] => in_urange 4 time && in_urange 2 date
+                 | _ => false
+                 end
+  | TStr lsg lw e => match v with VStr s => doc_str_dom lsg lw e s | _ => false end
+  | TStringN => match v with VStr s => in_urange 2 (zlen s) && encodable Utf8 s | _ => false end
+  | TStringI =>
+      match v with
+      | VTuple [VStr s; VType n; VStr lang; VInt cs] =>
+          match find_row type_rows n with
+          | Some r => match zlookup stringi_string_types (row_code r) with
+                      | Some n' => text_eqb n' n && doc_named_str_dom n s
+                      | None => false
+                      end
+          | None => false
+          end
+          && (length lang =? 3)%nat && all_ascii lang && in_urange 2 cs
+      | _ => false
+      end
+  | TNBytes n => match v with
+                 | VBytes b => bytes_ok b && ((n =? -1) || ((0 <=? n) && (zlen b =? n)))
+                 | _ => false
+                 end
+  | TBits w => (0 <? w)%nat && match v with VList l => (zlen l =? 8 * Z.of_nat w) && forallb is_vbool l | _ => false end
+  | TArrFixed n e =>
+      match v with
+      | VList l =>
+          match e with
+          | TBits w => (0 <? w)%nat && (Z.of_nat n * (8 * Z.of_nat w) <=? zlen l) && forallb is_vbool l
+          | _ => (Z.of_nat n <=? zlen l) && forallb (doc_dom e) (firstn n l)
+          end
+      | _ => false
+      end
+  | TArrPrefix _ lt e =>
+      match is_int_type lt, v with
+      | Some (sg, w), VList l => (0 <? w)%nat && int_in_range sg w (zlen l) && forallb (doc_dom e) l
+      | _, _ => false
+      end
+  | TArrAll e =>
+      match v with
+      | VList l => match e with
+                   | TBits w => (0 <? w)%nat && (zlen l mod (8 * Z.of_nat w) =? 0) && forallb is_vbool l
+                   | _ => forallb (doc_dom e) l
+                   end
+      | _ => false
+      end
+  | TStruct k ms =>
+      let plain := fun v' =>
+        match v' with
+        | VDict d => forallb (fun m => match dict_get d (fst m) with Ok x => doc_dom (snd m) x | Err _ => false end) ms
+        | VList l => forallb2 (fun m x => doc_dom (snd m) x) ms l
+        | _ => false
+        end in
+      match k with
+      | SPlain => plain v
+      | _ => match v with
+             | VDict _ => match identity_pre v with
+                          | Ok (VDict d') =>
+                              forallb (fun m => unnamed (fst m)
+                                                || match dict_get d' (fst m) with Ok x => doc_dom (snd m) x | Err _ => false end) ms
+                          | _ => false
+                          end
+             | _ => false
+             end
+      end
+  | TFixedStr size lsg lw cap =>
+      (cap <=? size)%nat && match v with VStr s => doc_str_dom lsg lw Latin1 (firstn cap s) | _ => false end
+  | TStructTag ms bits priv size =>
+      layout_ok 0 (stag_layout ms) size
+      && keys_nodup (map (fun m => fst (fst m)) ms ++ map (fun b => Some (fst b)) bits)
+      && forallb (fun b => (fst (snd b) <? size)%nat && (snd (snd b) <? 8)%nat) bits
+      && match v with
+         | VDict d =>
+             forallb (fun m => key_in (fst (fst m)) priv
+                               || match dict_get d (fst (fst m)) with Ok x => doc_dom (snd m) x | Err _ => false end) ms
+             && forallb (fun b => match dict_get d (Some (fst b)) with Ok x => is_vbool x | Err _ => false end) bits
+         | _ => false
+         end
+  | TIPAddr => match v with VStr s => ip_dom s | _ => false end
+  | TPcccAscii => match v with VStr s => (length s =? 2)%nat && forallb (single_byte Latin1) s | _ => false end
+  | TPcccString => match v with VStr s => (length s <=? 82)%nat && forallb (single_byte Latin1) s | _ => false end
+  end.
